@@ -2,7 +2,7 @@
 
 Complete enumeration over order types: bin type (8) x threshold list (every sequence over three
 threshold representatives of length 0..3, duplicates and non-increasing ones included: 40) x value
-(below, =t1, between, =t2, between, =t3, above, NaN, -inf, +inf) x form (python scalar, numpy
+(below, =t1, between, =t2, between, =t3, above, NaN, -inf, +inf, and t_i -/+ a tiny epsilon) x form (python scalar, numpy
 scalar, 1-d array, mixed 1-d array, 2-d array) x 3 strictly monotone embeddings of the
 representatives.  Oracle: plain Python comparisons; all implementation sites must agree.
 """
@@ -30,7 +30,10 @@ EMBEDDINGS = [
 ]
 # value classes: index into the embedding, or a special
 VALUE_CLASSES = [("below", 0), ("=t1", 1), ("between12", 2), ("=t2", 3), ("between23", 4), ("=t3", 5),
-                 ("above", 6), ("nan", "nan"), ("-inf", "-inf"), ("+inf", "+inf")]
+                 ("above", 6), ("nan", "nan"), ("-inf", "-inf"), ("+inf", "+inf"),
+                 # not equal to a threshold but within any plausible float tolerance of it
+                 ("t1-eps", ("near", 1, -1)), ("t1+eps", ("near", 1, 1)), ("t2-eps", ("near", 3, -1)),
+                 ("t2+eps", ("near", 3, 1)), ("t3-eps", ("near", 5, -1)), ("t3+eps", ("near", 5, 1))]
 THRESHOLD_LISTS = [()] + [t for n in (1, 2, 3) for t in itertools.product((1, 3, 5), repeat=n)]  # 1+3+9+27 = 40
 FORMS = ["pyfloat", "npfloat", "array1", "arraymixed", "array2d"]
 
@@ -106,6 +109,9 @@ def harness(ctx):
             return float("-inf")
         if c == "+inf":
             return float("inf")
+        if isinstance(c, tuple):
+            t = emb[c[1]]
+            return t + c[2] * (abs(t) * 1e-7 + 1e-9)
         return emb[c]
 
     thresholds = [emb[i] for i in tl]
@@ -124,8 +130,8 @@ def harness(ctx):
         positions = [(i, rolled[i]) for i in range(len(rolled))]
     else:
         rolled = allvals[k:] + allvals[:k]
-        X = np.array(rolled).reshape(2, 5)
-        positions = [((i // 5, i % 5), rolled[i]) for i in range(len(rolled))]
+        X = np.array(rolled).reshape(2, len(rolled) // 2)
+        positions = [((i // (len(rolled) // 2), i % (len(rolled) // 2)), rolled[i]) for i in range(len(rolled))]
     ctx.note("case", {"bin_type": bin_type, "thresholds": thresholds, "value": vclass[0], "x": x, "form": form})
     evs = events_for(bin_type, thresholds)
     sig = []
@@ -288,7 +294,7 @@ def run(tier, only=None):
     t0 = time.time()
     st = explore.explore(harness, mode="full", repo_root=core.REPO)
     subs.append(core.Sub.from_e1(
-        "sites", st, bound="full product 3 embeddings x 8 bin types x 40 threshold lists x 10 value classes x 5 forms",
+        "sites", st, bound="full product 3 embeddings x 8 bin types x 40 threshold lists x 16 value classes x 5 forms",
         rule="one execution per (embedding, bin type, threshold list, value class, form); non-trivial = at least one event "
              "is defined by the threshold list; distinct = distinct (case, answer-vector) observations",
         required_flags=("partition", "complement"), wall=time.time() - t0))
